@@ -19,10 +19,19 @@ def spec(name):
     return json.load(open(os.path.join(SPEC, name)))
 
 
+_CMD_BY_VALUE = None
+
+
 def cmd_const(term):
-    """(name, value) if term is a named command constant."""
+    """(name, value) if term is a command / token constant: the named constant, or - for a literal - the name the SD
+    specification table (spec/sd_constants.json) gives that command index / token value."""
+    global _CMD_BY_VALUE
     if term[0] == "c":
-        return (term[2].split("::")[-1] if term[2] else None, term[1])
+        if term[2]:
+            return (term[2].split("::")[-1], term[1])
+        if _CMD_BY_VALUE is None:
+            _CMD_BY_VALUE = {v["value"]: k for k, v in spec("sd_constants.json")["constants"].items() if k.startswith(("CMD", "ACMD")) or k.endswith("_TOKEN") or k == "DATA_START_BLOCK"}
+        return (_CMD_BY_VALUE.get(term[1]), term[1])
     return (None, None)
 
 
@@ -368,16 +377,16 @@ def sd6(F, R):
             if call_matches(t, ("SdCardInner::card_command",)):
                 nm, _ = cmd_const(f.term_of_operand(t["args"][1], b))
                 if nm == single:
-                    ok, _ = guarded(f, b, g_cmp("Eq", True, lambda a: "blocks" in tstr(a), lambda z: z[:2] == ("c", 1)))
+                    ok, _ = guarded(f, b, g_cmp("Eq", True, lambda a: has_sub(a, lambda q: q[:2] == ("arg", 2)), lambda z: z[:2] == ("c", 1)))
                     R.require(ok, f, "single-iff-len1", "%s (single block) sent although blocks.len() may differ from 1" % single, f.loc(b))
                 if nm == multi:
-                    ok, _ = guarded(f, b, g_cmp("Eq", False, lambda a: "blocks" in tstr(a), lambda z: z[:2] == ("c", 1)))
+                    ok, _ = guarded(f, b, g_cmp("Eq", False, lambda a: has_sub(a, lambda q: q[:2] == ("arg", 2)), lambda z: z[:2] == ("c", 1)))
                     R.require(ok, f, "multi-iff-len!=1", "%s (multi block) sent for a single block" % multi, f.loc(b))
     # ACMD23 argument = number of blocks
     for b, t in fn2.calls():
         if call_matches(t, ("SdCardInner::card_acmd",)):
             a = fn2.term_of_operand(t["args"][2], b)
-            R.require("blocks" in tstr(a) and ("PtrMetadata" in tstr(a) or "len" in tstr(a)), fn2, "acmd23=len", "ACMD23 pre-erase count must be blocks.len(), got %s" % tstr(a), fn2.loc(b))
+            R.require(has_sub(a, lambda q: q[:2] == ("arg", 2)) and ("PtrMetadata" in tstr(a) or "len" in tstr(a)), fn2, "acmd23=len", "ACMD23 pre-erase count must be blocks.len(), got %s" % tstr(a), fn2.loc(b))
     # buffers: contents of the caller's blocks
     for f in (fn, fn2):
         for b, t in f.calls():
@@ -385,7 +394,7 @@ def sd6(F, R):
             if n_:
                 buf = f.term_of_operand(t["args"][-1], b)
                 rs = roots(f, buf)
-                ok = "contents" in tstr(buf) and any((r[0] == "arg" and r[2] == "blocks") or (r[0] == "field" and r[1] == "blocks") for r in rs)
+                ok = "contents" in tstr(buf) and any((r[0] == "arg" and r[1] == 2) or (r[0] == "field" and r[1] == "arg2") for r in rs)
                 R.require(ok, f, "buffer=blocks[i].contents", "%s buffer %s is not a block of the caller's slice" % (n_.split("::")[-1], tstr(buf)), f.loc(b))
 
 
@@ -613,7 +622,10 @@ def sd8(F, R):
                 nrd += 1
                 buf = strip_refs(f_.term_of_operand(t["args"][1], b))
                 if f_ is fn:
-                    okb = "csd" in tstr(buf) and "data" in tstr(buf)
+                    # the `data` array of a local CsdV1 / CsdV2 value (whatever the local is called)
+                    base_ = strip_refs(buf[1]) if buf[0] == "place" else None
+                    okb = (buf[0] == "place" and [e for e in buf[2] if isinstance(e, str) and e != "*"][-1:] == ["data"] and base_ is not None and base_[0] == "var"
+                           and isinstance(base_[1], int) and "Csd" in f_.locals[base_[1]]["ty"])
                 else:
                     # the helper reads into its own buffer parameter, and read_csd hands it csd.data
                     okb = buf[0] == "arg" and all("data" in tstr(fn.term_of_operand(tt["args"][buf[1] - 1], bb)) for bb, tt in fn.calls() if (callee_of(tt) or "") == f_.npath)
@@ -1232,14 +1244,14 @@ def _loop_budget(F, fn, h, body):
         if t["k"] == "Call" and call_matches(t, ("sdcard::Delay::delay",)):
             d = strip_refs(fn.term_of_operand(t["args"][0], b))
             if d[0] == "arg":
-                return ("delay-arg", d[2])
+                return ("delay-arg", d[1])
             if d[0] == "var" and 1 <= d[1] <= fn.arg_count and not [x for x in fn.defs().get(d[1], []) if x[0] in ("assign", "call")]:
-                return ("delay-arg", d[2])
+                return ("delay-arg", d[1])
             if d[0] == "var":
                 for dt in var_def_terms(fn, d[1]):
                     dt = strip_refs(dt)
                     if dt[0] == "arg":
-                        return ("delay-arg", dt[2])             # the parameter handed on (through an inlined helper's own parameter)
+                        return ("delay-arg", dt[1])             # the parameter handed on (through an inlined helper's own parameter)
                     if dt[0] == "call" and dt[1]:
                         nm = dt[1].split("::")[-1]
                         if nm in DELAY_CTORS:
@@ -1268,9 +1280,10 @@ def sd15(F, R):
     for nm, cst in DELAY_CTORS.items():
         f = F.fn("sdcard::Delay::" + nm)
         args = [f.term_of_operand(t["args"][0], b) for b, t in f.calls() if (callee_of(t) or "").endswith("Delay::new")]
-        ok = len(args) == 1 and args[0][0] == "c" and args[0][2] and args[0][2].endswith(cst)
+        # (by value: the budget actually handed to Delay::new is what the patience bounds below are computed from)
+        ok = len(args) == 1 and args[0][0] == "c" and isinstance(args[0][1], int) and args[0][1] == F.const("sdcard::Delay::" + cst)
         R.require(ok, f, "ctor:" + nm, "Delay::%s must be Delay::new(%s)" % (nm, cst), f.loc(0))
-        consts[nm] = F.const("sdcard::Delay::" + cst)
+        consts[nm] = args[0][1] if (len(args) == 1 and args[0][0] == "c" and isinstance(args[0][1], int)) else F.const("sdcard::Delay::" + cst)
 
     def budget_us(bud):
         if bud is None:
@@ -1322,7 +1335,7 @@ def sd15(F, R):
     R.require(nb >= 4, None, "busy-sites", "expected >= 4 busy waits on the write path, found %d" % nb)
     wn = F.fn(SD + "::wait_not_busy")
     bud = [_loop_budget(F, wn, h, body) for (h, body, backs) in wn.loops()]
-    R.require(bud == [("delay-arg", "delay")], wn, "busy-loop", "wait_not_busy must be bounded by the Delay it is given (found %s)" % bud, wn.loc(0))
+    R.require(bud == [("delay-arg", 2)], wn, "busy-loop", "wait_not_busy must be bounded by the Delay it is given (found %s)" % bud, wn.loc(0))
 
 
 @rule("SD17", ["C14"], floor=5,
@@ -1428,7 +1441,7 @@ def sd19(F, R):
             ok = False
             what = tstr(a)[:60]
             if a[0] == "c":
-                ok = a[1] == 0xFF or (a[2] and a[2].endswith(("STOP_TRAN_TOKEN", "DATA_START_BLOCK", "WRITE_MULTIPLE_TOKEN")))
+                ok = a[1] == 0xFF or cmd_const(a)[0] in ("STOP_TRAN_TOKEN", "DATA_START_BLOCK", "WRITE_MULTIPLE_TOKEN")
             elif a[0] == "arg":
                 ok = fn.npath.endswith("SdCardInner::write_data")     # token / payload parameters of write_data (their values: SD6)
             elif a[0] == "var":
